@@ -170,7 +170,9 @@ def gen_invalid(rng, valid):
         return 'missing-operand', rng.choice((
             '=%s%s' % (valid[1:], op), '=%s%s' % (op, valid[1:]),
             '=(%s)%s%s%s' % (valid[1:], op, rng.choice(('*', '/', '^', '&')), a),
-            '=SUM(%s%s)' % (a, op), '=%s+' % a, '=%s-' % a))
+            '=SUM(%s%s)' % (a, op), '=%s+' % a, '=%s-' % a,
+            # the range operator without its first operand
+            '=:B2', '=SUM(:B2,%s)' % a, '=%s+:C3' % a, '=SUM($:$B$2)'))
     if k == 5:
         return 'adjacent-operands', rng.choice((
             '=%s %s' % (a, b), '=%s%s' % ('"s"', ' "t"'), '=(%s) %s' % (valid[1:], b),
